@@ -72,7 +72,7 @@ func (i *interpreter) yield() {
 		}
 		return
 	}
-	if i.h != nil && i.h.MaxSwitches > 0 && i.switches >= i.h.MaxSwitches && rs[0] == i.cur {
+	if i.h != nil && i.h.MaxSwitches >= 0 && i.switches >= i.h.MaxSwitches && rs[0] == i.cur {
 		return
 	}
 	k := i.choice(len(rs))
